@@ -43,6 +43,10 @@ CHECKS = {
          "Structure-biased mutations (bit flips, truncation, overwritten index/size/length fields, forged or garbage logs, random files) of clean and crash-snapshot images; every trial must end in Ok or Err: a panic is caught with its site, an abort or over-cap allocation kills the worker and is attributed to the trial.",
          "Hangs are observations, not violations (the statement does not cover them). Known findings (record-table sizing, a test-pinned panic) are listed in known_findings.jsonl and cut/recognised by call site.", "6/C07"),
 
+ "C23": ("dbsim", "exploration", "deterministic simulation: reader threads under shuttle's seeded random and PCT schedulers, scheduling points inside every simulated open/seek/read",
+         "For seeded databases and read-query lists, 2-4 reader threads run under a controlled scheduler; every result must equal the sequential baseline and none may fail. Failures carry the shuttle schedule and replay exactly.",
+         "Readers only (documented usage). Interleaving is controlled at simulated I/O calls; code between two I/O calls runs atomically. std::sync::Mutex in FileStorage is only try_locked, so it needs no model.", "6/C23"),
+
  "C04": ("dbsim", "exploration", "deterministic simulation: seeded storage histories with clean restarts, I/O noise and forced contended reads, checked operation by operation against a byte-level reference model",
          "Seeded search over storage-operation histories on all three back-ends; after every operation every live value is read back and compared with the model, removed values must be unreadable, and after defragmentation / restart the file must hold no unused space.",
          "Valid requests only; fault-free configuration (the crash configuration is C01). The model is 60 lines and mirrors the documented semantics of insert-at/move/resize.", "6/C04"),
